@@ -314,6 +314,11 @@ where
             &B::Device::default(),
         );
 
+        #[cfg(mini_mcmc_verif)]
+        mcmc_sim::trace::emit_with("hmc_pos0", || verif_vals(&self.positions));
+        #[cfg(mini_mcmc_verif)]
+        mcmc_sim::trace::emit_with("hmc_momentum", || verif_vals(&momentum_0));
+
         // Current log probability: shape [n_chains]
         // Detach pos to ensure it's AD-enabled for the gradient computation.
         let pos = self.positions.clone().detach().require_grad();
@@ -334,12 +339,22 @@ where
             .squeeze(1)
             .mul_scalar(T::from(0.5).unwrap());
 
+        #[cfg(mini_mcmc_verif)]
+        mcmc_sim::trace::emit_with("hmc_logp0", || verif_vals(&logp_current));
+
         // Compute the Hamiltonian: -logp + kinetic energy, shape [n_chains]
         let h_current: Tensor<B, 1> = -logp_current + ke_current;
 
         // 2) Run the leapfrog integrator.
         let (proposed_positions, proposed_momenta, logp_proposed) =
             self.leapfrog(self.positions.clone(), momentum_0);
+
+        #[cfg(mini_mcmc_verif)]
+        mcmc_sim::trace::emit_with("hmc_prop_pos", || verif_vals(&proposed_positions));
+        #[cfg(mini_mcmc_verif)]
+        mcmc_sim::trace::emit_with("hmc_prop_mom", || verif_vals(&proposed_momenta));
+        #[cfg(mini_mcmc_verif)]
+        mcmc_sim::trace::emit_with("hmc_logp1", || verif_vals(&logp_proposed));
 
         // Compute proposed kinetic energy.
         let ke_proposed = proposed_momenta
@@ -364,9 +379,14 @@ where
             &B::Device::default(),
         );
 
+        #[cfg(mini_mcmc_verif)]
+        mcmc_sim::trace::emit_with("hmc_u", || verif_vals(&uniform));
+
         // Accept the proposal if accept_logp >= ln(u).
         let ln_u = uniform.log(); // shape [n_chains]
         let accept_mask = accept_logp.greater_equal(ln_u); // Boolean mask of shape [n_chains]
+        #[cfg(mini_mcmc_verif)]
+        mcmc_sim::trace::emit_with("hmc_accept", || verif_vals(&accept_mask.clone().float()));
         let mut accept_mask_big: Tensor<B, 2, Bool> = accept_mask.clone().unsqueeze_dim(1);
         accept_mask_big = accept_mask_big.expand([n_chains, dim]);
 
@@ -431,6 +451,28 @@ where
         let logp_final = self.target.unnorm_logp_batch(pos.clone());
         (pos.detach(), mom.detach(), logp_final.detach())
     }
+
+    /// Verification only: the private leapfrog integrator, entered the way `step` enters it
+    /// (gradient half-step summands computed at `pos` first).
+    #[cfg(mini_mcmc_verif)]
+    pub fn verif_leapfrog(
+        &mut self,
+        pos: Tensor<B, 2>,
+        mom: Tensor<B, 2>,
+    ) -> (Tensor<B, 2>, Tensor<B, 2>, Tensor<B, 1>) {
+        let p = pos.clone().detach().require_grad();
+        let logp = self.target.unnorm_logp_batch(p.clone());
+        let grads = p.grad(&logp.backward()).unwrap();
+        self.last_grad_summands =
+            Tensor::<B, 2>::from_inner(grads.mul_scalar(self.step_size * T::from(0.5).unwrap()));
+        self.leapfrog(pos, mom)
+    }
+}
+
+/// Verification only: tensor values widened to f64, row-major.
+#[cfg(mini_mcmc_verif)]
+fn verif_vals<B: Backend, const D: usize>(t: &Tensor<B, D>) -> Vec<f64> {
+    t.to_data().convert::<f64>().to_vec::<f64>().unwrap()
 }
 
 #[cfg(test)]
